@@ -23,7 +23,7 @@ import (
 // C08 — each session is logged out exactly once; nothing runs after the connection ends.
 
 type c08Case struct {
-	Kind string `json:"kind"` // cut | srvend | tlscut
+	Kind string `json:"kind"` // cut | srvend | tlscut | closeoverlap | writefail
 
 	// cut
 	CSeed   uint64 `json:"cseed"`
@@ -102,6 +102,15 @@ func c08Run(ctx *core.Ctx) {
 				n := len(cv.bytes())
 				for cut := 0; cut <= n; cut++ {
 					emit(c08Case{Kind: "cut", CSeed: ctx.Seed + 1, Conv: k, Name: cv.Name, Cut: cut, Failure: []string{"close", "timeout", "reset"}[cut%3], Seg: []string{"one", "line"}[(cut/3)%2], Mode: cv.Mode})
+				}
+			}
+		}
+		// the peer sends a whole conversation and goes away: its input can still be read, but the
+		// k-th write of the server (greeting, replies, 354 ...) and every later one fails
+		for ci, c := range cs {
+			for k := 0; k <= len(c.Steps)+4; k++ {
+				for fi, f := range []string{"reset", "timeout"} {
+					emit(c08Case{Kind: "writefail", Conv: ci, Name: c.Name, Cut: k, Failure: f, Seg: []string{"one", "line"}[(k+fi)%2], Mode: c.Mode, ReadTimeout: (k+ci)%3 == 0})
 				}
 			}
 		}
@@ -201,6 +210,8 @@ func c08Exec(ctx *core.Ctx, c c08Case) {
 	switch c.Kind {
 	case "closeoverlap":
 		c08CloseOverlap(ctx, c)
+	case "writefail":
+		c08WriteFail(ctx, c)
 	case "cut":
 		c08Cut(ctx, c)
 	case "tlscut":
@@ -292,6 +303,8 @@ func clipStr(s string, n int) string {
 
 func c08Desc(c c08Case) string {
 	switch c.Kind {
+	case "writefail":
+		return fmt.Sprintf("writefail conv=%s writes-before-failure=%d failure=%s seg=%s readtimeout=%v", c.Name, c.Cut, c.Failure, c.Seg, c.ReadTimeout)
 	case "cut":
 		return fmt.Sprintf("cut conv=%s mode=%s cut=%d failure=%s seg=%s", c.Name, c.Mode, c.Cut, c.Failure, c.Seg)
 	case "tlscut":
@@ -382,6 +395,53 @@ func c08Cut(ctx *core.Ctx, c c08Case) {
 		cls := "cut/" + string(cv.Mode) + "/" + c.Failure
 		if ctx.WantSample(cls) {
 			ctx.Sample(cls, map[string]any{"conv": cv.Name, "cut": c.Cut, "failure": c.Failure, "replies": codes(replies), "events": len(rig.Log.Events())})
+		}
+	}
+}
+
+// c08WriteFail: the whole conversation is on the wire and the peer is gone; the server's writes
+// fail from the Cut-th one on. Whatever the server makes of a failed write, the session lifecycle
+// holds: one Logout per session, nothing after it, no panic, no goroutine left.
+func c08WriteFail(ctx *core.Ctx, c c08Case) {
+	cv, okc := convFor(c08Corpus(), c.CSeed, c.Conv)
+	if !okc {
+		ctx.Broken("C08: bad conversation index")
+		return
+	}
+	ctx.Eval(fmt.Sprintf("writefail|%d|%d|%s|%s|%v", c.Conv, c.Cut, c.Failure, c.Seg, c.ReadTimeout), true)
+	kind := cv.Mode.kind()
+	if cv.Auth {
+		kind = rec.Auth
+	}
+	rig := wire.NewRig(kind, func(s *smtp.Server) {
+		s.LMTP = cv.Mode.lmtp()
+		s.AllowInsecureAuth = true
+		if c.ReadTimeout {
+			s.ReadTimeout, s.WriteTimeout = time.Hour, time.Hour // virtual clock: never expire by themselves
+		}
+	})
+	c08AuthHooks(rig)
+	werr := error(memconn.ErrReset)
+	if c.Failure == "timeout" {
+		werr = memconn.ErrTimeout
+	}
+	p := rig.DialWith(func(srv *memconn.Conn) { srv.FailWriteAfter(c.Cut, werr) })
+	sendPrefix(p, cv.bytes(), c.Seg)
+	p.Raw.CloseWrite()
+	replies, err := p.ReadAll()
+	p.Close()
+	fin := rig.Finish()
+	ends := waitDataEnds(rig.Log)
+	if isWatchdog(err) || !fin || !ends {
+		ctx.Inconclusive("C08 watchdog " + c08Desc(c))
+		return
+	}
+	ctx.Add("replies_parsed", int64(len(replies)))
+	ctx.Add("server_write_failures_injected", 1)
+	if c08Lifecycle(ctx, c, rig.Log, replies, 0, "") {
+		cls := "writefail/" + string(cv.Mode) + "/" + c.Failure
+		if ctx.WantSample(cls) {
+			ctx.Sample(cls, map[string]any{"conv": cv.Name, "writes_before_failure": c.Cut, "failure": c.Failure, "replies_that_got_out": codes(replies), "events": len(rig.Log.Events())})
 		}
 	}
 }
